@@ -976,13 +976,16 @@ def c09_work(task):
             longs = dict(sampling_rate=rate, sample_width=sw, channels=ch, analysis_window=aw, energy_threshold=eth, use_channel=uc)
             wrong = dict(sr=rate * 2, sw=(1 if sw != 1 else 2), ch=ch + 1, aw=aw * 2, eth=eth + 60, uc=(0 if uc != 0 else "mix"))
             for long_name, short in SPELL:
-                for variant in ("short", "both"):
+                for variant in ("short", "both", "both_short_first"):
                     cov["evaluations"] += 1
                     kw = dict(longs)
                     if variant == "short":
                         kw[short] = kw.pop(long_name)
-                    else:
+                    elif variant == "both":
                         kw[short] = wrong[short]
+                    else:
+                        kw = {short: wrong[short]}  # the same two spellings, the short one written first
+                        kw.update(longs)
                     if long_name == "use_channel" and ch == 1:
                         continue
                     try:
@@ -996,8 +999,25 @@ def c09_work(task):
                                  {"what": "spelling", "short": short, "variant": variant, "tuple": [mn, mx, ms], "uc": uc})
             # validator / val
             val = util.AudioEnergyValidator(eth, sw, ch, uc)
+
+            class CountingValidator(util.DataValidator):
+                """A user validator that also is a container (of the windows it rejected so far): empty, hence falsy, when given."""
+
+                def __init__(self):
+                    self.rejected = []
+
+                def __len__(self):
+                    return len(self.rejected)
+
+                def is_valid(self, w):
+                    ok = val.is_valid(w)
+                    if not ok:
+                        self.rejected.append(len(w))
+                    return ok
+
             for kw in (dict(validator=val), dict(val=val), dict(validator=val, val=lambda w: False),
-                       dict(validator=val, energy_threshold=eth + 80)):
+                       dict(validator=val, energy_threshold=eth + 80), dict(validator=CountingValidator(), energy_threshold=eth + 80),
+                       dict(val=CountingValidator(), eth=eth + 80)):
                 cov["evaluations"] += 1
                 got = regions_sig(core.split(data, analysis_window=aw, **base_kw, **kw, **ap), rate)
                 if got != base:
